@@ -253,6 +253,24 @@ func Load(o LoadOpts) (*Prog, error) {
 			}
 		}
 	}
+	// ... and the bodies of generic functions and methods, which the walk over the program's function set
+	// above does not reach while they are not instantiated
+	if os.Getenv("STORAGECHECK_NOFORWARD") == "" {
+		var shorts []string
+		for short := range p.SSAPkgs {
+			shorts = append(shorts, short)
+		}
+		sort.Strings(shorts)
+		for _, fn := range p.SrcFuncs(shorts...) {
+			for i := 0; i < 6; i++ {
+				k := forwardPrivateStructs(fn)
+				p.Forwarded += k
+				if k == 0 {
+					break
+				}
+			}
+		}
+	}
 	return p, nil
 }
 
